@@ -15,9 +15,9 @@ from vf.qlib import *  # noqa
 from vf.refmodel import rel
 
 INFO = {
-    'explanation': 'History obligations: for EVERY history (3 symbolic selectors over 9 scenarios + "nothing") and every table the probe result is unchanged. '
+    'explanation': 'History obligations: for EVERY history (symbolic selectors over 20 scenarios + "nothing") and every table the probe result is unchanged. '
                    'Schedule obligations: for EVERY step index k (and j) and every pair of tables both queries return their solo results.',
-    'bounds': 'histories of <= 3 queries over 9 scenarios; tables of 2-3 int rows; nested depth <= 3; probe / A / B query kinds: aggregate, unnest, like, distinct count, join, sorted, update, erroring',
+    'bounds': 'histories of <= 3 queries over 20 scenarios; tables of 2-3 int rows; nested depth <= 3; probe / A / B query kinds: aggregate, unnest, like, distinct count, join, sorted, update, erroring',
     'outside': 'preemptive thread interleavings at arbitrary byte-code boundaries (a suspended second stack is not expressible in CrossHair): NOT claimed',
     'assumptions': ['module-level state of rbql_engine is what the interpreter holds after import (fresh) at the start of every explored path'],
     'trusted': ['crosshair-tool 0.0.110', 'z3', 'CPython 3.12.1'],
@@ -40,6 +40,7 @@ CASES = {
     'named': Q(items=[attr('v'), sub('k'), NR], where=("a.v != 1", lambda e: e.an('v') != 1), ha=['k', 'v']),
     'named-swapped': Q(items=[attr('v'), sub('k'), NR], where=("a.v != 1", lambda e: e.an('v') != 1), ha=['v', 'k']),
     'named-update': Q(update=[('a.v', 1, 'a.k', lambda e: e.an('k'))], ha=['k', 'v']),
+    'named-missing': Q(items=[sub('x'), fa(1)], ha=['k', 'v']),      # a["x"] over a header WITHOUT a column x: fails, whatever ran before
     'named-update-swapped': Q(update=[('a.v', 0, 'a.k', lambda e: e.an('k'))], ha=['v', 'k']),
 }
 TEXT = {k: rel.render(v) for k, v in CASES.items()}
@@ -86,6 +87,14 @@ def scenario(i, T, PT=None):
     elif i == 17:
         qh.run_rbql('update set a2 = 5, a1 = a2', PT)        # an UPDATE over the very table OBJECT the probe reads afterwards (no copy)
         qh.run_rbql('update set a1 = 10 // (NR - 2)', PT)    # ... and one that fails half way
+    elif i == 18:
+        qh.run_rbql('select a["x"], a.y, a2', [[5, 7], [6, 8]], None, ['x', 'y'])   # a table that HAS a column x, read through a["x"]
+        qh.run_rbql('select a1, b["x"] join b on a1 == b1', [[5, 7], [6, 8]], [[5, 1], [6, 2]], ['p', 'q'], ['o', 'x'])
+    elif i == 19:
+        qh.run_rbql('select a1, b2 join b on a1 == b1', qh.copy_table(T), [[0, 5], [1, 6, 9], [2]])   # uniform input, RAGGED join table: a warning of this query only
+    elif i == 20:
+        qh.run_rbql('select a1', [[1, 2], [0]])                                                      # ragged input: a warning of this query only
+        qh.run_rbql('select a1, None', [[1, 2], [0, 3]])
     elif i == 13:
         qh.run_rbql('select a1, 10 // (NR - 2) order by a1', qh.copy_table(T))       # ORDER BY query failing after it has buffered a record
     elif i == 14:
@@ -125,12 +134,12 @@ got = qh.run_rbql(P.TEXT[PROBE], qh.copy_table(T), qh.copy_table(B), q.ha, q.hb)
 g1, e1 = qh.normalise(got, exp)
 return ((g0, g1), (e0, e1))
 ''' % (texpr, ', '.join(n for n, _t in sels)))
-    selpre = ['0 <= %s <= 17' % n for n, _t in sels]
+    selpre = ['0 <= %s <= 20' % n for n, _t in sels]
     if first is not None:
         selpre[0] = 'h0 == %d' % first
     src = harness('PROBE = %r\nPROBE_FIRST = %r\n' % (probe, probe_first), sels + pa, selpre + pb + po, body, extra_defs=HIST_SRC)
     return Obl('history[probe=%s,rows=%d,len=%d%s%s]' % (probe, rows, nsel, (',first=%d' % first) if first is not None else '', '' if probe_first else ',history-first'), src, timeout=timeout,
-               meta={'query': TEXT[probe], 'bounds': 'every history of %d steps over 17 scenarios (+ nothing) x every %d-row table of ints 0..2' % (nsel, rows)})
+               meta={'query': TEXT[probe], 'bounds': 'every history of %d steps over 20 scenarios (+ nothing) x every %d-row table of ints 0..2' % (nsel, rows)})
 
 
 SCHED_SRC = HIST_SRC + '''
@@ -223,10 +232,14 @@ def obligations(tier, seed):
     quick = tier == 'quick'
     t = 200 if quick else 1200
     probes = ['agg', 'unnest', 'like', 'dcount', 'divide', 'minmax', 'top', 'join', 'sorted', 'avgstr'] if quick else [c for c in CASES if not c.endswith('-swapped')]
-    probes = probes + [x for x in ('named', 'named-update', 'named-lit') if x not in probes]
+    probes = probes + [x for x in ('named', 'named-update', 'named-lit', 'named-missing') if x not in probes]
     for pi, p in enumerate(probes):
-        for first in range(1, 18):
-            if p.startswith('named') and first not in (10, 11, 12, 1, 7, 16):
+        for first in range(1, 21):
+            if p.startswith('named') and first not in (10, 11, 12, 1, 7, 16, 18, 19):
+                continue
+            if (first == 18) != (p == 'named-missing') and (first == 18 or p == 'named-missing') and not (p == 'named-missing' and first in (1, 16)):
+                continue
+            if first in (19, 20) and p not in ('agg', 'join', 'top', 'named', 'sorted', 'update', 'dcount'):
                 continue
             if not p.startswith('named') and first in (10, 11, 12):
                 continue
@@ -238,7 +251,7 @@ def obligations(tier, seed):
                 continue
             if (first == 15) != (p == 'avgstr') and (first == 15 or p == 'avgstr') and not (p == 'avgstr' and first in (1, 7)):
                 continue
-            if quick and (first + pi + seed) % 3 != 0 and not p.startswith('named') and first not in (13, 14, 15, 16, 17):
+            if quick and (first + pi + seed) % 3 != 0 and not p.startswith('named') and first not in (13, 14, 15, 16, 17) and not (first in (19, 20) and p in ('agg', 'join', 'top')):
                 continue
             pf = not p.startswith('named') and p != 'avgstr' and first not in (13, 14) and (first + pi) % 2 == 0
             obs.append(_history_obl(p, 2, t, nsel=2, first=first, probe_first=pf))
